@@ -37,13 +37,14 @@ def Current : Tree → Nat → FS → Path → Prop
     match fuel with
     | 0 => True
     | f + 1 =>
-      ∃ m, fs (dir ++ ["meta.json"]) = some (.json m) ∧ m.kind ≠ "NonTensorData" ∧ m.kind ≠ "LazyStackedTensorDict"
+      ∃ m, fs (dir ++ ["meta.json"]) = some (.json m) ∧ m.kind = "TensorDict"
         ∧ m.batch = ob ∧ m.device = od
         ∧ (∀ kids, loadEntries f fs dir m.entries = some kids → ∀ p ∈ oldKids, (kids.any fun q => q.1 == p.1) = true)
         ∧ CurrentKids oldKids f fs dir
   | .leaf .., _, _, _ => True
   | .nontensor .., _, _, _ => True
   | .lazy .., _, _, _ => True
+  | .tclass .., _, _, _ => True
 def CurrentKids : List (String × Tree) → Nat → FS → Path → Prop
   | [], _, _, _ => True
   | (k, oc) :: rest, fuel, fs, dir => Current oc fuel fs (dir ++ [k]) ∧ CurrentKids rest fuel fs dir
@@ -58,13 +59,17 @@ theorem refresh_eq_load_aux : ∀ (old : Tree) (fuel : Nat) (fs : FS) (dir : Pat
   | .nontensor .., _ + 1, _, _, _ => by simp [loadInto]
   | .lazy .., 0, _, _, _ => by simp [loadInto, load]
   | .lazy .., _ + 1, _, _, _ => by simp [loadInto]
+  | .tclass .., 0, _, _, _ => by simp [loadInto, load]
+  | .tclass .., _ + 1, _, _, _ => by simp [loadInto]
   | .node _ _ _, 0, _, _, _ => by simp [loadInto, load]
   | .node ob od oldKids, f + 1, fs, dir, h => by
     simp only [Current] at h
-    obtain ⟨m, hm, hn1, hn2, hb, hd, hstale, hkids⟩ := h
+    obtain ⟨m, hm, hkd, hb, hd, hstale, hkids⟩ := h
     have hk := refresh_kids_aux oldKids f fs dir hkids
     have he := loadIntoEntries_eq f fs dir oldKids hk m.entries
-    simp only [loadInto, load, hm, hn1, hn2, false_or, if_false, he]
+    have hn1 : ¬ m.kind = "NonTensorData" := by rw [hkd]; decide
+    have hn2 : ¬ m.kind = "LazyStackedTensorDict" := by rw [hkd]; decide
+    simp only [loadInto, load, hm, hn1, hn2, hkd, ne_eq, not_true_eq_false, if_false, if_true, he]
     cases hl : loadEntries f fs dir m.entries with
     | none => rfl
     | some kids =>
